@@ -3,6 +3,7 @@ CONSTANTS
   SharedField = "none"
   MemoBound = TRUE
   SampleKinds = TRUE
+  FreshVariants = TRUE
   HistLen = 3
 POSTCONDITION Written
 CHECK_DEADLOCK FALSE
